@@ -10,6 +10,7 @@ from sa.report import AnalysisError
 from sa.report import Result
 from sa.report import norm
 from sa.srcmodel import ClassInfo
+from sa.srcmodel import FunctionInfo
 from sa.srcmodel import Program
 from sa.srcmodel import dotted
 from sa.util import is_self_attr
@@ -106,6 +107,24 @@ def run(prog: Program, res: Result) -> None:  # noqa: PLR0912, PLR0915
     res.rule("C11.R3", "scope soundness: template_scope names are the names assign/capture/increment bind; block_scope constant/field names are keys of the namespace pushed at run time; a key removed from the namespace before it is pushed is excluded from block_scope")
     node_base = prog.cls("liquid2.ast.Node")
     n3 = 0
+    n3c = 0
+    res.rule("C11.R3c", "a name that template_scope() declares template-local is stored where it shadows the globals: the RenderContext method that binds it writes a mapping placed before `self.globals` in the scope chain (read off RenderContext.__init__) - a counter, which the chain consults last, does not hide a global of the same name from a later read")
+    ctx_cls = prog.cls("liquid2.context.RenderContext")
+    cinit = ctx_cls.methods.get("__init__")
+    chain_order: list[str] = []
+    for a in ast.walk(cinit.node) if cinit else []:
+        if isinstance(a, ast.Assign) and any(is_self_attr(t, "scope") for t in a.targets) and isinstance(a.value, ast.Call):
+            chain_order = [x.attr if isinstance(x, ast.Attribute) else norm(x) for x in a.value.args]
+    if "globals" not in chain_order:
+        raise AnalysisError("C11.R3c: RenderContext.scope chain not found")
+    writer_field: dict[str, str] = {}
+    for mn in ("assign", "increment", "decrement"):
+        wm = ctx_cls.methods.get(mn)
+        if wm is None:
+            continue
+        for sub in ast.walk(wm.node):
+            if isinstance(sub, ast.Subscript) and isinstance(sub.ctx, ast.Store) and is_self_attr(sub.value):
+                writer_field[mn] = sub.value.attr
     for ci in prog.subclasses(node_base, strict=True):
         ts = ci.methods.get("template_scope")
         renders = [m for m in (ci.methods.get("render_to_output"), ci.methods.get("render_to_output_async")) if m is not None]
@@ -121,6 +140,17 @@ def run(prog: Program, res: Result) -> None:  # noqa: PLR0912, PLR0915
                             bound = True
                 if bound:
                     res.ok("C11.R3", f"{ci.file}:{ts.node.lineno} {ci.name}.template_scope", what, f"context.assign/increment/decrement({name}, …)")
+                    # R3c: the binding must come before the globals in the lookup chain, or a global of that name is what a later read gets
+                    for m in renders[:1]:
+                        for c in ast.walk(m.node):
+                            if isinstance(c, ast.Call) and isinstance(c.func, ast.Attribute) and c.func.attr in ("assign", "increment", "decrement") and c.args and norm(c.args[0]) == name:
+                                n3c += 1
+                                fld = writer_field.get(c.func.attr)
+                                what_c = f"{ci.name}: `{name}` declared template-local is stored (context.{c.func.attr}) in a mapping that precedes the globals in RenderContext.scope"
+                                if fld is not None and fld in chain_order and chain_order.index(fld) < chain_order.index("globals"):
+                                    res.ok("C11.R3c", f"{ci.file}:{c.lineno} {ci.name}", what_c, f"self.{fld} is link {chain_order.index(fld)} of the chain {chain_order}")
+                                else:
+                                    res.fail("C11.R3c", file=ci.file, line=ts.node.lineno, qualname=f"{ci.name}.template_scope", construct=f"{ci.name}.template_scope declares a name that context.{c.func.attr} stores after the globals in the lookup chain", message=f"{ci.name}.template_scope() declares `{name}` a template-local, but context.{c.func.attr}() stores it in self.{fld}, which RenderContext.scope consults after the globals ({' -> '.join(chain_order)}): when a global of that name exists, a later `{{{{ {name.split('.')[-1]} }}}}` reads the global, and analyze() does not report it as one", what=what_c)
                 else:
                     res.fail("C11.R3", file=ci.file, line=ts.node.lineno, qualname=f"{ci.name}.template_scope", construct=f"{ci.name}.template_scope yields {name} which render never binds", message=f"{ci.name} declares `{name}` as a template-local but its render method binds a different name: uses of the real name are not reported as globals / the declared one hides a global", what=what)
         bs = ci.methods.get("block_scope")
@@ -195,6 +225,7 @@ def run(prog: Program, res: Result) -> None:  # noqa: PLR0912, PLR0915
             else:
                 res.fail("C11.R3", file=ci.file, line=bs.node.lineno, qualname=f"{ci.name}.block_scope", construct=f"{ci.name}.block_scope enumerates {src}, unused by render", message=f"block scope is declared from {src} which the render method never binds", what=what)
     res.floor("C11.R3", "scope obligations", n3, 10)
+    res.floor("C11.R3c", "template-local declarations checked against the lookup chain", n3c, 4)
     # lambda parameters: LambdaExpression.scope() yields the params that map() binds
     lam = ex.classes.get("LambdaExpression")
     if lam is None:
@@ -205,6 +236,84 @@ def run(prog: Program, res: Result) -> None:  # noqa: PLR0912, PLR0915
         res.ok("C11.R3", f"{lam.file}:{sc.node.lineno} LambdaExpression.scope", what, "same field")
     else:
         res.fail("C11.R3", file=lam.file, line=lam.node.lineno, qualname="LambdaExpression.scope", construct="lambda scope/params mismatch", message="lambda parameters are not declared to the analyser: they are reported as globals", what=what)
+
+    # ------------------------------------------------------------------ R3d block-scoped names are in force for every child the analyser visits with them
+    res.rule("C11.R3d", "the analyser applies block_scope() to every child children() returns; so every child block a render method renders (`self.<child>.render[_async](…)`) is rendered inside the `with context.extend/loop(…)` that pushes those names - a child rendered outside it (the `else` of a `for`) reads the loop variable from the globals while analyze() calls it block-local")
+    n3d = 0
+    for ci in prog.subclasses(node_base, strict=True):
+        bs = ci.methods.get("block_scope")
+        if bs is None or not any(isinstance(y, (ast.Yield, ast.YieldFrom, ast.Return)) and getattr(y, "value", None) is not None for y in ast.walk(bs.node)):
+            continue
+        kids = {k.attr for k in T.static_contributions(prog, ci, ("children",))}
+        for m in (ci.methods.get("render_to_output"), ci.methods.get("render_to_output_async")):
+            if m is None:
+                continue
+            scoped_withs = [w for w in ast.walk(m.node) if isinstance(w, (ast.With, ast.AsyncWith)) and any(isinstance(c, ast.Call) and isinstance(c.func, ast.Attribute) and c.func.attr in ("extend", "loop") for it in w.items for c in ast.walk(it.context_expr))]
+            pushes_elsewhere = any(isinstance(c, ast.Call) and isinstance(c.func, ast.Attribute) and c.func.attr in ("copy",) for c in ast.walk(m.node))
+            for c in ast.walk(m.node):
+                if not (isinstance(c, ast.Call) and isinstance(c.func, ast.Attribute) and c.func.attr in ("render", "render_async") and is_self_attr(c.func.value) and c.func.value.attr in kids):
+                    continue
+                n3d += 1
+                attr = c.func.value.attr
+                site = f"{ci.file}:{c.lineno} {ci.name}.{m.name}"
+                what = f"{ci.name}.{m.name}: self.{attr} is rendered with the block scope pushed"
+                inside = any(any(x is c for x in ast.walk(w)) for w in scoped_withs)
+                if inside or (pushes_elsewhere and not scoped_withs):
+                    res.ok("C11.R3d", site, what, "inside the with that pushes the namespace" if inside else "rendered with a copied context that carries the namespace")
+                else:
+                    res.fail("C11.R3d", file=ci.file, line=c.lineno, qualname=f"{ci.name}.{m.name}", construct=f"{ci.name}.{m.name}: self.{attr} rendered outside the block scope", message=f"{ci.name}.{m.name} renders self.{attr} outside the `with` that pushes the names block_scope() declares, but the analyser visits it (children()) with those names in scope: a read of the loop variable there is looked up in the globals at run time and reported as block-local", what=what)
+    res.floor("C11.R3d", "child blocks rendered by nodes that declare a block scope", n3d, 6)
+
+    # ------------------------------------------------------------------ R3b names declared for a partial are bound for it
+    res.rule("C11.R3b", "a name that partial_scope() declares as bound inside the partial (beyond the keyword arguments) is declared only under the conditions on the tag's own fields under which every render path stores that key into the partial's namespace: a name declared on weaker conditions hides a global the partial really looks up")
+    from checks.C15 import _atoms as _cond_atoms
+    from checks.C15 import _path_condition as _cond_path
+
+    n3b = 0
+    for ci in prog.subclasses(node_base, strict=True):
+        ps = ci.methods.get("partial_scope")
+        if ps is None:
+            continue
+        appends = [c for c in ast.walk(ps.node) if isinstance(c, ast.Call) and isinstance(c.func, ast.Attribute) and c.func.attr in ("append", "extend", "add") and c.args]
+        if not appends:
+            continue
+        renders = [m for m in (ci.methods.get("render_to_output"), ci.methods.get("render_to_output_async")) if m is not None]
+
+        def self_atoms(fn: FunctionInfo, node: ast.AST) -> tuple[set[tuple[str, str]], set[str]]:
+            definite: set[tuple[str, str]] = set()
+            mentioned: set[str] = set()
+            for t, pol in _cond_path(fn.module, fn.node, node):
+                for o, f in _cond_atoms(t, pol):
+                    if not o.startswith("self."):
+                        continue
+                    if f.startswith("mentioned:"):
+                        mentioned.add(o)
+                    else:
+                        definite.add((o, f))
+            return definite, mentioned
+
+        # what every render path requires before it stores a computed key into a namespace mapping
+        required: set[tuple[str, str]] | None = None
+        n_stores = 0
+        for m in renders:
+            for st_ in ast.walk(m.node):
+                if isinstance(st_, ast.Assign) and len(st_.targets) == 1 and isinstance(st_.targets[0], ast.Subscript) and isinstance(st_.targets[0].slice, ast.Name):
+                    n_stores += 1
+                    d, _ = self_atoms(m, st_)
+                    required = d if required is None else (required & d)
+        for c in appends:
+            n3b += 1
+            d, _ = self_atoms(ps, c)
+            site = f"{ci.file}:{c.lineno} {ci.name}.partial_scope"
+            what = f"{ci.name}.partial_scope declares `{norm(c.args[0], 50)}` only where the render stores that key"
+            if required is None:
+                res.fail("C11.R3b", file=ci.file, line=c.lineno, qualname=f"{ci.name}.partial_scope", construct=f"{ci.name}.partial_scope declares a name no render path stores", message=f"{ci.name}.partial_scope() declares `{norm(c.args[0], 50)}` as bound in the partial, but no render method stores a computed key into the partial's namespace", what=what)
+            elif required <= d:
+                res.ok("C11.R3b", site, what, f"declared under {sorted(d)}; every one of the {n_stores} stores requires {sorted(required)}")
+            else:
+                miss = sorted(required - d)
+                res.fail("C11.R3b", file=ci.file, line=c.lineno, qualname=f"{ci.name}.partial_scope", construct=f"{ci.name}.partial_scope declares a bound name without requiring {[o + ':' + f for o, f in miss]}", message=f"{ci.name}.partial_scope() declares `{norm(c.args[0], 50)}` as bound inside the partial without requiring {[o + ' ' + f for o, f in miss]}, but the render stores that key only then: for a tag without it the partial looks the name up in the globals and analyze() does not report it", what=what)
+    res.floor("C11.R3b", "names declared by partial_scope() beyond the keyword arguments", n3b, 4)
 
     # ------------------------------------------------------------------ R4 extractor reads every filter list
     res.rule("C11.R4", "the filter extractor inspects every attribute annotated list[Filter] on an Expression class and recurses over children(); the variable analyser recurses over children() under expression.scope()")
@@ -265,10 +374,21 @@ def run(prog: Program, res: Result) -> None:  # noqa: PLR0912, PLR0915
                 res.fail("C11.R4", file=sa_mod.relpath, line=v.node.lineno, qualname=v.qualname, construct=f"{outer}._visit no longer calls {piece}", message=f"the analyser visitor does not consult {piece}", what=what)
         # tags are recorded for every tag/lines token except the transparent block wrappers
         what = f"{outer}._visit records a tag for every node with a tag/lines token"
-        if "tags[node.token.name].append(Span(template_name, node.token.start, node.token.stop))" in txt and "is_tag_token(node.token) or is_lines_token(node.token)" in txt:
-            res.ok("C11.R4", f"{sa_mod.relpath}:{v.node.lineno} {v.qualname}", what, "present")
+        # token classes that stand for a `{% … %}` tag that does something: every marker-carrying class except the output statement and comments
+        tokmod = prog.mod("liquid2/token.py")
+        tag_kinds = {c.name for c in tokmod.classes.values() if any(isinstance(s_, ast.AnnAssign) and isinstance(s_.target, ast.Name) and s_.target.id == "wc" for s_ in c.node.body)} - {"OutputToken", "CommentToken", "BlockCommentToken", "InlineCommentToken"}
+        guards = {n_: dotted(f_.node.returns.slice) or "" for n_, f_ in tokmod.functions.items() if f_.node.returns is not None and isinstance(f_.node.returns, ast.Subscript) and (dotted(f_.node.returns.value) or "").endswith("TypeGuard")}
+        covered_kinds: set[str] = set()
+        for if_ in ast.walk(v.node):
+            if isinstance(if_, ast.If) and any(isinstance(x, ast.Subscript) and norm(x.value) == "tags" for b in if_.body for x in ast.walk(b)) and any(isinstance(x, ast.Call) and isinstance(x.func, ast.Attribute) and x.func.attr == "append" for b in if_.body for x in ast.walk(b)):
+                for c_ in ast.walk(if_.test):
+                    if isinstance(c_, ast.Call) and isinstance(c_.func, ast.Name) and c_.func.id in guards and c_.args and norm(c_.args[0]) == "node.token":
+                        covered_kinds.add(guards[c_.func.id])
+        missing_kinds = sorted(k for k in tag_kinds if not any(b.name in covered_kinds for b in prog.mro(tokmod.classes[k])))
+        if not missing_kinds and covered_kinds:
+            res.ok("C11.R4", f"{sa_mod.relpath}:{v.node.lineno} {v.qualname}", what, f"records {sorted(covered_kinds)}")
         else:
-            res.fail("C11.R4", file=sa_mod.relpath, line=v.node.lineno, qualname=v.qualname, construct="tag recording", message="tags are not recorded from every tag token", what=what)
+            res.fail("C11.R4", file=sa_mod.relpath, line=v.node.lineno, qualname=v.qualname, construct=f"{v.qualname}: no tag recorded for nodes whose token is a {missing_kinds}", message=f"{v.qualname} records a tag only for {sorted(covered_kinds)} tokens: a node built from a {missing_kinds} token (e.g. `{{% raw %}}`) is executed by the render and missing from analyze().tags", what=what)
 
     # ------------------------------------------------------------------ R6 static scope pairing
     res.rule("C11.R6", "in the analyser visitors every static-scope push is followed by a pop on every path to the function's exit (no early return between them)")
@@ -343,9 +463,36 @@ def run(prog: Program, res: Result) -> None:  # noqa: PLR0912, PLR0915
             ch = prog.find_method(hc, "children")
             site = f"{fi.file}:{c.lineno} {fi.qualname}"
             what = f"{hc.name}.{attr} (evaluated by {fi.qualname}) is contributed by {hc.name}.children()"
-            contributed = ch is not None and any(is_self_attr(x, attr) for x in ast.walk(ch.node))
+            contributed = ch is not None and attr in {k.attr for k in T.static_contributions(prog, hc, ("children",)) if k.kind == T.ELEMENT}
             if contributed:
-                res.ok("C11.R8", site, what, f"{hc.name}.children() mentions self.{attr}")
+                res.ok("C11.R8", site, what, f"{hc.name}.children() hands out self.{attr}")
             else:
                 res.fail("C11.R8", file=ch.file if ch else hc.file, line=ch.node.lineno if ch else hc.node.lineno, qualname=f"{hc.name}.children", construct=f"{hc.name}.children() omits {attr}, which {fi.qualname} evaluates", message=f"{fi.qualname} evaluates `{norm(c.func.value)}` at run time but {hc.name}.children() does not contribute `{attr}`: variables and filters used there are looked up by the render and never reported by analyze()", what=what)
     res.floor("C11.R8", "expression attributes evaluated by another class", n8, 2)
+
+    # ------------------------------------------------------------------ R10 lookups the analyser is never told about
+    res.rule("C11.R10", "every name a render looks up in the namespace is visible to the analyser: outside RenderContext itself and Path.evaluate (whose path the analyser reads), no filter, tag or loader resolves a name from the render context on its own (`context.resolve(…)`, `context.globals[…]`, `context.base_globals.get(…)`) - the Filter/Tag API has no way to declare such an implicit variable, so it is looked up and never reported")
+    n10 = 0
+    by_fn: dict[str, list[tuple[FunctionInfo, ast.AST, str]]] = {}
+    for fi in sorted(prog.all_functions(), key=lambda f: (f.file, f.node.lineno)):
+        if fi.file == "liquid2/context.py" or (fi.cls is not None and fi.cls.name == "Path"):
+            continue
+        for c in ast.walk(fi.node):
+            if prog.enclosing_function(fi.module, c) is not fi:
+                continue
+            what_ = None
+            if isinstance(c, ast.Call) and isinstance(c.func, ast.Attribute) and c.func.attr == "resolve" and norm(c.func.value) in ("context", "ctx", "self.context") and c.args:
+                what_ = norm(c.args[0], 40)
+            elif isinstance(c, ast.Call) and isinstance(c.func, ast.Attribute) and c.func.attr == "get" and norm(c.func.value).endswith((".base_globals", "context.globals")) and c.args:
+                what_ = norm(c.args[0], 40)
+            elif isinstance(c, ast.Subscript) and isinstance(c.ctx, ast.Load) and norm(c.value).endswith(("context.globals", ".base_globals")):
+                what_ = norm(c.slice, 40)
+            if what_ is not None:
+                by_fn.setdefault(fi.fid, []).append((fi, c, what_))
+    for fid, sites in sorted(by_fn.items()):
+        fi = sites[0][0]
+        n10 += 1
+        names = sorted({w for _, _, w in sites})
+        res.fail("C11.R10", file=fi.file, line=sites[0][1].lineno, qualname=fi.qualname, construct=f"{fi.qualname} resolves names from the render context on its own", message=f"{fi.qualname} looks up {names} in the render context by itself (not through a Path the analyser can see): a render reads these names from the global namespace and analyze() never reports them", what=f"{fi.qualname}: no implicit context lookup")
+    res.ok("C11.R10", "liquid2/**", f"{n10} function(s) outside RenderContext/Path resolve names on their own", "each is a finding (the API offers no way to declare them)")
+    res.floor("C11.R10", "implicit-lookup scan ran", 1, 1)
